@@ -3,6 +3,7 @@ import json
 import random
 
 import core
+import progrun
 import gen_lines
 from worker import Worker, Oracle
 
@@ -46,6 +47,7 @@ def run(ctx):
         if v not in oracles:
             oracles[v] = Oracle(v)
         return oracles[v]
+    progrun.apply(ctx, "diff_lines", "line starts")
     try:
         N = 60 if not ctx.thorough else 1500
         # ------------------------------------------------ lnotab eras
